@@ -44,14 +44,67 @@ Run runLib(const Gamma& G, const std::string& text, rl::Syntax syn, bool lazy) {
 
 bool isLimitCode(uint32_t e) { return e == 0x8A01 || e == 0x8A02 || e == 0x8A04 || e == 0x8A06; }
 
-Verdict evalWith(Ctx& c, bool reuseNames) {
+// An imperative constructor whose blocks feed each other: every domain, assigned value and guard is built from the
+// variables of EARLIER blocks (iterate over a set assigned from an outer iteration variable, chains of assignments,
+// tuple-pattern assignments), the shape in which loop-variant and loop-invariant parts are easy to confuse.
+EP genImperativeChain(Ctx& c, TypedGen& g, Ty& valueType) {
+  std::vector<const Global*> bases; for (auto& gl : g.G.globals) if (gl.isBase) bases.push_back(&gl);
+  const Global* X = c.oneof(bases);
+  const Ty E = Ty::Base(X->name), S = Ty::Set(E);
+  struct V { std::string name; bool isSet; };
+  std::vector<V> vars;
+  static const std::vector<std::string> names = {"a", "b", "c", "d", "x", "y", "s", "t", "u", "v"};
+  auto fresh = [&](bool isSet) { const std::string n = names[vars.size() % names.size()] + (vars.size() >= names.size() ? "1" : ""); vars.push_back({n, isSet}); return mkName(TID::ID_LOCAL, n); };
+  auto pickVar = [&](bool isSet) -> EP { std::vector<const V*> vs; for (auto& v : vars) if (v.isSet == isSet) vs.push_back(&v); if (vs.empty()) return nullptr; return mkName(TID::ID_LOCAL, vs[static_cast<size_t>(c.ipick(0, static_cast<int>(vs.size()) - 1))]->name); };
+  auto elemExpr = [&]() -> EP { return pickVar(false); };  // an element variable always exists after the first block
+  std::function<EP(int)> setExpr = [&](int d) -> EP {
+    EP sv = pickVar(true);
+    switch (c.ipick(0, d > 0 ? 6 : 3)) {
+      case 0: return mkName(TID::ID_GLOBAL, X->name);
+      case 1: case 2: if (sv) return sv; [[fallthrough]];
+      case 3: return mk(TID::NT_ENUMERATION, {elemExpr()});
+      case 4: return mk(TID::UNION, {setExpr(d - 1), mk(TID::NT_ENUMERATION, {elemExpr()})});
+      case 5: return mk(TID::SET_MINUS, {mkName(TID::ID_GLOBAL, X->name), setExpr(d - 1)});
+      default: return mk(TID::UNION, {setExpr(d - 1), setExpr(d - 1)});
+    }
+  };
+  std::vector<EP> blocks;
+  { EP dom = mkName(TID::ID_GLOBAL, X->name); blocks.push_back(mk(TID::ITERATE, {fresh(false), dom})); }
+  const int n = c.ipick(2, 5);
+  for (int i = 1; i < n; ++i) {
+    const int w = c.ipick(0, 9);
+    if (w <= 3) { EP dom = setExpr(1); blocks.push_back(mk(TID::ITERATE, {fresh(false), dom})); }
+    else if (w <= 5) { EP val = setExpr(1); blocks.push_back(mk(TID::ASSIGN, {fresh(true), val})); }
+    else if (w == 6) { EP val = elemExpr(); blocks.push_back(mk(TID::ASSIGN, {fresh(false), val})); }
+    else if (w == 7) { EP val = mk(TID::NT_TUPLE, {elemExpr(), setExpr(1)}); EP p = fresh(false); EP q = fresh(true); blocks.push_back(mk(TID::ASSIGN, {mk(TID::NT_TUPLE_DECL, {p, q}), val})); g.features[1] = true; }
+    else if (w == 8) blocks.push_back(mk(c.coin() ? TID::EQUAL : TID::NOTEQUAL, {elemExpr(), elemExpr()}));
+    else blocks.push_back(mk(c.coin() ? TID::IN : TID::NOTIN, {elemExpr(), setExpr(1)}));
+  }
+  std::vector<EP> comps; std::vector<Ty> tys;
+  const int k = c.ipick(1, 3);
+  for (int i = 0; i < k; ++i) { const V& v = vars[static_cast<size_t>(c.ipick(0, static_cast<int>(vars.size()) - 1))]; comps.push_back(mkName(TID::ID_LOCAL, v.name)); tys.push_back(v.isSet ? S : E); }
+  EP value = k == 1 ? comps[0] : mk(TID::NT_TUPLE, comps);
+  valueType = k == 1 ? tys[0] : Ty::Tuple(tys);
+  g.features[4] = true; g.binders += static_cast<int>(vars.size()); g.ops += n;
+  std::vector<EP> ks{value}; ks.insert(ks.end(), blocks.begin(), blocks.end());
+  return mk(TID::NT_IMPERATIVE_EXPR, ks);
+}
+
+enum EvalMode { GENERAL, NAME_REUSE, IMPERATIVE_CHAIN };
+Verdict evalWith(Ctx& c, EvalMode mode) {
   TypedGen g(c);
-  g.optReuseNames = reuseNames;
+  g.optReuseNames = mode == NAME_REUSE;
+  if (mode == IMPERATIVE_CHAIN) g.optMinBase = 2;
   g.makeContext();
-  const int rootKind = c.ipick(0, 9);
-  const Ty target = rootKind < 4 ? Ty::Logic() : rootKind < 8 ? Ty::Set(g.randType(2)) : g.randType(2);
-  const int depth = c.ipick(1, 4);
-  EP e = target.k == Ty::LOGIC ? g.genLogic(depth) : g.genTerm(target, depth);
+  Ty target; int depth = 1; EP e;
+  if (mode == IMPERATIVE_CHAIN) {
+    Ty vt; e = genImperativeChain(c, g, vt); target = Ty::Set(vt);
+  } else {
+    const int rootKind = c.ipick(0, 9);
+    target = rootKind < 4 ? Ty::Logic() : rootKind < 8 ? Ty::Set(g.randType(2)) : g.randType(2);
+    depth = c.ipick(1, 4);
+    e = target.k == Ty::LOGIC ? g.genLogic(depth) : g.genTerm(target, depth);
+  }
 
   // renderings
   PrintOpts plain; plain.syn = Syn::MATH;
@@ -131,8 +184,9 @@ Verdict evalWith(Ctx& c, bool reuseNames) {
 }
 
 // ---- the same question through an interpreted model: RSModel::Calculations().Calculate + Values().SDataFor / StatementFor ----
-Verdict evalProp(Ctx& c) { return evalWith(c, false); }
-Verdict evalReuseProp(Ctx& c) { return evalWith(c, true); }
+Verdict evalProp(Ctx& c) { return evalWith(c, GENERAL); }
+Verdict evalReuseProp(Ctx& c) { return evalWith(c, NAME_REUSE); }
+Verdict evalImperativeProp(Ctx& c) { return evalWith(c, IMPERATIVE_CHAIN); }
 
 Verdict modelProp(Ctx& c) {
   using ccl::semantic::CstType;
@@ -243,6 +297,7 @@ int main(int argc, char** argv) {
   props.push_back({"witnesses", witnessProp, 0, 0, true, false, "literal expressions that exposed repaired defects, with their set-theoretic values"});
   props.push_back({"evaluate", evalProp, 2500, 40000, false, false, "type-directed expressions x contexts x data; 2-4 renderings each"});
   props.push_back({"evaluate_name_reuse", evalReuseProp, 1200, 20000, false, false, "the same, with binders re-declaring names whose earlier scope has ended (sibling binders, domains of enumerated / tuple declarations)"});
+  props.push_back({"evaluate_imperative_chains", evalImperativeProp, 800, 12000, false, false, "imperative constructors of 2-5 blocks in which every domain / assigned value / guard is built from the variables of earlier blocks"});
   props.push_back({"model_calculate", modelProp, 1200, 20000, false, false, "the same content as an RSModel: Calculate + SDataFor / StatementFor vs the reference value"});
   return pbt::main(argc, argv, "C01", props);
 }
